@@ -88,6 +88,7 @@ def run_property(prop, tier, seed):
     profiles = (D.PROFILES_C01 if prop == "C01" else D.PROFILES)[tier]
     count = D.COUNTS[tier]
     import special
+    changed = D.changed_sources()
     if prop in special.RUNNERS:
         ex = special.RUNNERS[prop](prop, tier, seed, count, profiles)
     else:
@@ -96,6 +97,22 @@ def run_property(prop, tier, seed):
             special.cross_entry(prop, tier, seed, count, profiles, ex)
         if prop in special.ES_ORACLE:
             special.es_oracle(prop, tier, seed, count, profiles, ex)
+    if changed and tier == "quick":
+        # the source differs from the tree the model was written against: not an alarm, but a
+        # reason to look harder - a second, larger pass from another seed, in two profiles
+        D.log(f"[{prop}] source changed since the model was written ({', '.join(changed[:4])}): second pass")
+        profs2 = sorted(set(profiles) | {"dev", "release"})
+        if prop in special.RUNNERS:
+            ex2 = special.RUNNERS[prop](prop, tier, seed + 104729, count * 3, profiles)
+        else:
+            ex2 = explore(prop, tier, seed + 104729, count * 3, profs2, "second")
+        for k in ("evaluations", "shards", "shards_ok"):
+            ex[k] += ex2[k]
+        for k in ("corr_fail", "spec_fail", "illformed", "errors"):
+            ex[k].extend(ex2[k])
+        ex["distinct_nontrivial"] = max(ex["distinct_nontrivial"], ex2["distinct_nontrivial"])
+        for pr, dd in ex2["dist"].items():
+            ex["dist"][pr + "/second-pass"] = dd
     D.log(f"[{prop}] explored {ex['evaluations']} cases in {time.time() - t0:.0f}s: corr_fail={len(ex['corr_fail'])} "
           f"spec_fail={len(ex['spec_fail'])} errors={len(ex['errors'])}")
     if ex["errors"]:
@@ -161,6 +178,8 @@ def run_property(prop, tier, seed):
         },
         "assumptions": D.TRUSTED_BASE, "wall_s": round(wall, 1), "violations": violations,
     }
+    if changed:
+        evidence["coverage"]["source_changed_since_model"] = changed
     if ex.get("notes"):
         evidence["coverage"]["notes"] = ex["notes"]
     if tie_broken:
